@@ -271,6 +271,10 @@ class _Expander(Rewriter):
             self.local = saved
             return node if body is node.body else _rebuild(node, {"body": body})
         new = self.generic(node)
+        if isinstance(new, ast.Subscript) and is_S(new.slice, "index") and len(new.slice.args) == 2 \
+                and not isinstance(new.value, (ast.Name, ast.Constant)) and U(new.value) == U(new.slice.args[0]):
+            # E[Σindex(E, tag)] is the element the loop is at:  Σelem(E, tag)
+            return S("elem", new.slice.args[0], new.slice.args[1])
         if RECORDS and isinstance(new, (ast.Attribute, ast.Subscript)):
             return _project_record(new)
         if isinstance(new, ast.Call) and isinstance(new.func, ast.Call):
@@ -328,6 +332,12 @@ def expand(expr: ast.AST, vars_: Dict[str, ast.expr], counter=None) -> ast.AST:
 def iter_bindings(target: ast.AST, it: ast.expr, tag: ast.Constant):
     """Yield (name, provenance) for a loop target bound to elements of ``it``."""
     if isinstance(target, ast.Name):
+        # for idx in range(len(E)):  idx is the position of an element of E (E[idx] is that element, see _Expander)
+        if isinstance(it, ast.Call) and isinstance(it.func, ast.Name) and it.func.id == "range" and len(it.args) == 1 \
+                and not it.keywords and isinstance(it.args[0], ast.Call) and isinstance(it.args[0].func, ast.Name) \
+                and it.args[0].func.id == "len" and len(it.args[0].args) == 1 and not it.args[0].keywords:
+            yield target.id, S("index", it.args[0].args[0], tag)
+            return
         yield target.id, S("elem", it, tag)
         return
     if isinstance(target, (ast.Tuple, ast.List)):
